@@ -12,11 +12,11 @@ def run(tier, seed, replay):
     thorough = tier == "thorough"
     rep.rule = ("tool invocations of the ASan build: jwt-verify on token lists of length 1..1024 with 0..n failing tokens at random positions, "
                 "as arguments and on stdin, with tokens from 100 bytes to 64 KiB; jwt-generate -> jwt-verify for every key type with every "
-                "documented spelling of -a/-k/-q/-n/-c/-j/-v (option lists cross-checked against --help); key2jwk -> library import -> "
+                "documented spelling of -a/-k/-q/-n/-c/-j/-v/-p (quiet, default, verbose and --print output modes; the generator's stdout is also piped as it is into jwt-verify -) (option lists cross-checked against --help); key2jwk -> library import -> "
                 "jwk2key -> component comparison for fresh PEM/bin keys of every type, with EC keys generated until leading-zero coordinates "
                 "and private scalars occurred. distinct = distinct (tool, scenario descriptor) tuples")
     rep.assumptions = ["process exit status and stdout are the observables; key identity is judged by drivers/d_c20.c with OpenSSL directly",
-                       "blank lines and CRLF line ends on stdin are sent but unjudged", "--print pipelines are not exercised"]
+                       "blank lines and CRLF line ends on stdin are sent but unjudged", "--print is exercised with the command cat only"]
     rd = vf.run_dir("C20")
     bdir = vf.build("asan")
     T = {t: os.path.join(bdir, "tools", t) for t in ("jwt-verify", "jwt-generate", "key2jwk", "jwk2key")}
@@ -89,13 +89,14 @@ def run(tier, seed, replay):
                   ["--json", '{"x":1}'], ["-c", "s:a=1", "-c", "i:b=2", "-n"]]
         for vi, (ks, asp, vkey, vasp) in enumerate(variants):
             ex = extras[(vi + len(name)) % len(extras)]
-            q = ["-q"] if vi % 2 == 0 else ["--quiet"]
+            # output modes: quiet (both spellings), default, verbose (both spellings), verbose/default with a --print command
+            q = [["-q"], ["--quiet"], [], ["-v"], ["--verbose", "--print=cat"], ["-v", "-p", "cat"], ["-p", "cat"], ["--verbose"]][(vi + 3 * len(name)) % 8]
             jobs.append(dict(name=name, gen=[T["jwt-generate"]] + q + ks + asp + ex, vkey=vkey, vasp=vasp, desc="%s|%s|%s" % (" ".join(a.split("/")[-1] for a in ks), " ".join(asp), " ".join(ex)),
                              pub=pub if os.path.exists(pub) else None))
 
     def gen_verify(j):
         res = dict(j)
-        p = subprocess.run(j["gen"], capture_output=True, env=env)
+        p = p0 = subprocess.run(j["gen"], capture_output=True, env=env)
         res["gen_rc"] = p.returncode; res["gen_out"] = p.stdout.decode("latin-1"); res["gen_err"] = p.stderr.decode("latin-1")[-600:]
         m = TOKEN_RE.search(res["gen_out"])
         res["token"] = m.group(0) if m else None
@@ -106,6 +107,15 @@ def run(tier, seed, replay):
                 cmd = [T["jwt-verify"], "-q" if i % 2 else "--quiet"] + vk + j["vasp"] + [res["token"]]
                 p = subprocess.run(cmd, capture_output=True, env=env)
                 res["verifies"].append((" ".join(c.split("/")[-1] for c in (vk + j["vasp"])), p.returncode, p.stderr.decode("latin-1")[-300:] + p.stdout.decode("latin-1")[-300:]))
+            # what jwt-generate wrote to stdout, piped as it is into jwt-verify's stdin
+            cmd = [T["jwt-verify"], "-q", "-k", j["vkey"]] + j["vasp"] + ["-"]
+            p = subprocess.run(cmd, input=p0.stdout, capture_output=True, env=env)
+            res["verifies"].append(("stdout-piped-to-stdin " + " ".join(j["vasp"]), p.returncode, p.stderr.decode("latin-1")[-300:] + " | generate stdout: " + res["gen_out"][:300]))
+            # verbose / print spellings on the verifying side: the exit status is the same
+            for vo in (["-v"], ["--verbose", "--print=cat"], ["-v", "-p", "cat"], []):
+                cmd = [T["jwt-verify"]] + vo + ["--key=" + j["vkey"]] + j["vasp"] + [res["token"]]
+                p = subprocess.run(cmd, capture_output=True, env=env)
+                res["verifies"].append(("verify-output-mode " + " ".join(vo + j["vasp"]), p.returncode, p.stderr.decode("latin-1")[-300:]))
             if j["pub"]:
                 cmd = [T["jwt-verify"], "-q", "-k", j["pub"]] + (j["vasp"] if j["vasp"] else ["--algorithm", "AUTO"]) + [res["token"]]
                 if not j["vasp"]:
@@ -154,6 +164,8 @@ def run(tier, seed, replay):
                 cases.append((n, f, mode))
     if not thorough:
         cases = [c for c in cases if c[0] <= 513 or c[1] in (0, 512, 1024)]
+    # failure counts at the width of a 16-bit counter (stdin only: beyond the argument size limit)
+    cases += [(65536, 65536, "stdin"), (65537, 65536, "stdin"), (65792, 65792, "stdin")] + ([(70000, 65536, "stdin"), (131072, 131072, "stdin")] if thorough else [])
 
     def verify_list(c):
         n, f, mode = c
